@@ -34,6 +34,19 @@ type Options struct {
 	Skip []string
 	// KeepZeroAddressRows keeps pn_addresses rows whose balances are all zero.
 	KeepZeroAddressRows bool
+	// DropCols removes further columns: table -> column names.
+	DropCols map[string][]string
+}
+
+// Without returns a copy of o that also drops the given column of the given table.
+func (o Options) Without(table string, cols ...string) Options {
+	n := o
+	n.DropCols = map[string][]string{}
+	for k, v := range o.DropCols {
+		n.DropCols[k] = v
+	}
+	n.DropCols[table] = append(append([]string{}, n.DropCols[table]...), cols...)
+	return n
 }
 
 // Ledger is the projection used by most differential oracles: everything except pn_sync_version.
@@ -128,7 +141,13 @@ func dumpTable(db Queryer, t string, o Options) ([]string, error) {
 	if err != nil {
 		return nil, err
 	}
-	drop := dropped[t]
+	drop := map[string]bool{}
+	for c := range dropped[t] {
+		drop[c] = true
+	}
+	for _, c := range o.DropCols[t] {
+		drop[c] = true
+	}
 	var out []string
 	vals := make([]interface{}, len(cols))
 	ptrs := make([]interface{}, len(cols))
